@@ -407,7 +407,7 @@ def _worker(args):
 def run_scenario(scen, prop, seed, known, engine_hooks=()):
     t0 = time.time()
     stop = mp.get_context("fork").Value("i", 0)
-    budget = scen.time_budget_s or (600 if os.environ.get("VERIF_TIER_EFFECTIVE", "quick") == "quick" else 2400)
+    budget = scen.time_budget_s or (300 if os.environ.get("VERIF_TIER_EFFECTIVE", "quick") == "quick" else 2400)
     _JOB.update(scen=scen, prop=prop, seed=seed, known=known, stop=stop, engine_hooks=list(engine_hooks), deadline=t0 + budget)
     first = _explore(scen, prop, seed, known, stop, None, frontier_depth=scen.frontier if scen.workers > 1 else None)
     results = [first]
